@@ -39,6 +39,8 @@ def cases(tier):
     for lanes in (2, 3, 4):
         for cars in (1, 2, 3):
             yield {'m': 'toll_station', 'lanes': lanes, 'cars': cars}
+    for lanes, cars in ((5, 1), (6, 1), (7, 1), (5, 2)):
+        yield {'m': 'toll_station', 'lanes': lanes, 'cars': cars}
     for k1, k2, k3 in itertools.product([0.5, 1.0, 2.0], repeat=3):
         for m in (1, 2, 3):
             yield {'m': 'two_step', 'k': [k1, k2, k3], 'mm': m}
@@ -170,8 +172,19 @@ def run_case(case, seed):
                 check_gen(r, key, op, False)
         elif m == 'toll_station':
             op = mdl.toll_station(case['lanes'], case['cars'])
+            Gt = None
+            if (case['cars'] + 1) ** case['lanes'] <= 300:
+                # the defining reaction network: lanes equidistant on [-2, 2], arrival / departure rates from the position,
+                # lane changes (rate 5) from a lane to a neighbour that holds fewer cars
+                nl_, nc_ = case['lanes'], case['cars']
+                f_in_ = lambda t: np.exp(-0.5 * t ** 2 / 2.5) / np.sqrt(2 * np.pi * 2.5) + 0.05
+                f_out_ = lambda t: np.exp(-0.5 * (t + 1.5) ** 2) / np.sqrt(2 * np.pi) + np.exp(-0.5 * (t - 1.5) ** 2 / 0.5) / np.sqrt(2 * np.pi * 0.5)
+                pos_ = np.linspace(-2.0, 2.0, nl_)
+                single_ = [[x_ for j_ in range(nc_) for x_ in ([j_, j_ + 1, f_in_(pos_[i_])], [j_ + 1, j_, f_out_(pos_[i_])])] for i_ in range(nl_)]
+                two_ = [[x_ for j_ in range(nc_) for k_ in range(j_ + 1) for x_ in ([j_ + 1, j_, k_, k_ + 1, 5.0], [k_, k_ + 1, j_ + 1, j_, 5.0])] for _ in range(nl_ - 1)]
+                Gt = reaction_generator([nc_ + 1] * nl_, single_, two_, False)
             r.true(key + ':dims', list(op.row_dims) == [case['cars'] + 1] * case['lanes'])
-            check_gen(r, key, op, True)
+            check_gen(r, key, op, True, Gt)
         elif m == 'two_step':
             k1, k2, k3 = case['k']
             op = mdl.two_step_destruction(k1, k2, k3, case['mm'])
